@@ -144,7 +144,7 @@ def run(tier='quick', repo=None):
         # every memcpy / store into the attribute after udict_set must not read a parameter-derived pointer
         params = {p['n'] for p in fn.params}
         for pos in sets:
-            hits, _ = ev.reach((pos[0], pos[1]), pr.m_call(r'memcpy|__builtin___memcpy_chk|__builtin_memcpy|strcpy|__builtin___strcpy_chk'), None)
+            hits, _ = ev.reach((pos[0], pos[1]), pr.m_call(r'memcpy|__builtin___memcpy_chk|__builtin_memcpy|memmove|__builtin_memmove|__builtin___memmove_chk|strcpy|__builtin___strcpy_chk'), None)
             for h in hits:
                 src = h[2]['args'][1]
                 roots = {x.get('n') for x in walk(src) if x.get('k') == 'ref' and x.get('d') in ('param', 'local')}
@@ -157,6 +157,29 @@ def run(tier='quick', repo=None):
             if len(pre) == len(sets):
                 ok, why = False, '%s calls udict_set() without having copied the value first' % name
         rep.add('R-copy-first', name, HOLDS if ok else VIOLATED, fn.loc, **({} if ok else {'what': why}))
+    # ---- R-copy-absent ------------------------------------------------------------------
+    rep.rule('R-copy-absent', 'uref_attr_copy_T (every attribute type of UREF_ATTR_TEMPLATE): every path to a return has deleted the attribute from the '
+             'destination or stored the source\'s value into it - when the source lacks the attribute the destination ends without it, not with a stale value')
+    ncopy = 0
+    for name, fn in sorted(H.funcs.items()):
+        if not re.match(r'^uref_attr_copy_\w+$', name) or name.endswith('_va') or fn.macro != 'UREF_ATTR_TEMPLATE' or not fn.blocks:
+            continue
+        ncopy += 1
+        ev = pr.Events(fn)
+
+        def on_dst(x, fn=fn):
+            if x.get('k') != 'call' or not x.get('args'):
+                return False
+            if not (x.get('fn') == 'uref_attr_delete' or (x.get('fn') or '').startswith('uref_attr_set_')):
+                return False
+            a = strip_all_casts(fn.resolve(x['args'][0]))
+            return isinstance(a, dict) and a.get('k') == 'ref' and a.get('d') == 'param' and a.get('pi') == 0
+        _, ex = ev.reach(None, lambda x: False, on_dst, from_entry=True)
+        rep.add('R-copy-absent', name, VIOLATED if ex else HOLDS, fn.loc,
+                **({'what': '%s can return without having deleted the attribute from the destination or overwritten it: when the source lacks the attribute '
+                            'the destination keeps its previous value, and a lookup after the copy returns something the source never held' % name} if ex else {}))
+    if ncopy < 9:
+        raise facts.AnalysisBroken('only %d uref_attr_copy_T functions found' % ncopy)
     # ---- R-dup-deep --------------------------------------------------------------------
     fn = u.funcs.get('udict_inline_dup')
     if fn is None:
